@@ -1294,4 +1294,63 @@ theorem pyCall_of_named_err {s : Sig} {c : Call} {e : BindErr} (h : nameArgs s c
     pyCall s c = .error .typeError := by
   rw [pyCall_eq]; unfold pyBind; rw [h]; rfl
 
+
+
+/-- An argument bound at construction and supplied again at call time without `override_args`
+is refused (patched and pinned code alike go through the same tests; stated for the patched one). -/
+theorem functorCall_conflict (s : Sig) (F : Functor) (n1 n2 : Named) (hB : Built s F n1)
+    (c2 : Call) (ovr? ign? : Option Bool)
+    (hn2 : nameArgs s (if ign?.getD F.ignoreExtraArgs = true then dropExtras s c2 else c2) = .ok n2)
+    (hovr : ovr?.getD F.overrideArgs = false) (hconf : conflicts n1 n2 = true) :
+    functorCall true F c2 ovr? ign? = .error .typeError := by
+  obtain ⟨hsig, _, hnamed, hextra, _, _, _, _⟩ := hB
+  obtain ⟨hnm, _, hnex, _, _, _⟩ := nameArgs_ok_inv hn2
+  have hzip := dropExtras_zip s c2 (ign?.getD F.ignoreExtraArgs)
+  rw [hzip] at hnm
+  have hsub : ∀ p ∈ (if ign?.getD F.ignoreExtraArgs = true then dropExtras s c2 else c2).kwargs, p ∈ c2.kwargs := by
+    intro p hp
+    split at hp
+    · simp only [dropExtras] at hp
+      split at hp
+      · exact (List.mem_filter.1 hp).1
+      · exact hp
+    · exact hp
+  have hspec : ∀ k, k ∈ keys F.bound → F.specified.contains k = true := by
+    intro k hk
+    exact List.contains_iff_mem.2 (List.mem_append_left _ hk)
+  have hk1 : ∀ k, khas n1.named k = true → k ∈ keys F.bound := by
+    intro k hk
+    rw [khas_iff, ← hnamed, keys_filter (fun k => s.names.contains k)] at hk
+    exact (List.mem_filter.1 hk).1
+  have hk2 : ∀ k, khas n1.extra k = true → k ∈ keys F.bound := by
+    intro k hk
+    rw [khas_iff, ← hextra, keys_filter (fun k => !s.names.contains k)] at hk
+    exact (List.mem_filter.1 hk).1
+  -- the offending argument is either positional or a keyword of this call
+  have hoff : (∃ p ∈ s.posNames.zip c2.args, F.specified.contains p.1 = true) ∨
+      (∃ p ∈ c2.kwargs, F.specified.contains p.1 = true) := by
+    simp only [conflicts, Bool.or_eq_true, List.any_eq_true] at hconf
+    rcases hconf with ⟨p, hp, hk⟩ | ⟨p, hp, hk⟩
+    · rw [hnm] at hp
+      rcases List.mem_append.1 hp with hp | hp
+      · exact Or.inl ⟨p, hp, hspec _ (hk1 _ hk)⟩
+      · exact Or.inr ⟨p, hsub p (List.mem_filter.1 hp).1, hspec _ (hk1 _ hk)⟩
+    · rw [hnex] at hp
+      exact Or.inr ⟨p, hsub p (List.mem_filter.1 hp).1, hspec _ (hk2 _ hk)⟩
+  have hpo : parseOverrides true F c2 ovr? ign? = .error .typeError := by
+    unfold parseOverrides
+    simp only [hsig, hovr]
+    split
+    · rfl
+    · rcases hoff with h | h
+      · rw [posLoop_err _ _ _ h]
+      · cases hp : posLoop F.specified false (s.posNames.zip c2.args) F.bound with
+        | error e => cases e; rfl
+        | ok kw1 =>
+          simp only
+          rw [kwLoop_err s _ _ false _ c2.kwargs _
+            (by obtain ⟨p, hp, hs⟩ := h; exact ⟨p, hp, Or.inr (Or.inr ⟨hs, rfl⟩)⟩)]
+  unfold functorCall
+  rw [hpo]
+
 end Pg.C18
